@@ -95,6 +95,7 @@ pub fn transaction_size_with_luts<T: Borrow<Instruction>>(
     let mut programs = HashSet::<Pubkey>::default();
     let mut accounts = HashSet::<Pubkey>::from([payer]);
     let mut signers = HashSet::<Pubkey>::from([payer]);
+    let mut writables = HashSet::<Pubkey>::from([payer]);
 
     let ixs_size = ixs.iter().fold(0, |size, ix| {
         let ix = ix.borrow();
@@ -104,6 +105,9 @@ pub fn transaction_size_with_luts<T: Borrow<Instruction>>(
             accounts.insert(account.pubkey);
             if account.is_signer {
                 signers.insert(account.pubkey);
+            }
+            if account.is_writable {
+                writables.insert(account.pubkey);
             }
         });
         size + 1
@@ -120,17 +124,27 @@ pub fn transaction_size_with_luts<T: Borrow<Instruction>>(
         .collect::<HashSet<_>>();
 
     let mut lookup_table_addresses = 0;
+    // Size of the table keys and of the lengths of the (writable / readonly) index lists.
+    let mut lookup_tables_size = 0;
     let num_of_address_lookups = if let Some(alts) = luts {
         let total_accounts = accounts.len();
         for alt in alts.values() {
-            let mut used = false;
+            let mut writable_indexes = 0;
+            let mut readonly_indexes = 0;
             for pubkey in alt {
                 if can_lookups.remove(pubkey) {
-                    used = true;
+                    if writables.contains(pubkey) {
+                        writable_indexes += 1;
+                    } else {
+                        readonly_indexes += 1;
+                    }
                 }
             }
-            if used {
+            if writable_indexes + readonly_indexes != 0 {
                 lookup_table_addresses += 1;
+                lookup_tables_size += 32
+                    + get_size_of_compressed_u16(writable_indexes)
+                    + get_size_of_compressed_u16(readonly_indexes);
             }
         }
         accounts = can_lookups
@@ -153,7 +167,7 @@ pub fn transaction_size_with_luts<T: Borrow<Instruction>>(
         + ixs_size
         + num_of_address_lookups;
     if is_versioned_transaction {
-        size + 1 + get_size_of_compressed_u16(0) + lookup_table_addresses * (32 + 2)
+        size + 1 + get_size_of_compressed_u16(lookup_table_addresses) + lookup_tables_size
     } else {
         size
     }
